@@ -470,6 +470,7 @@ func runTables(rc *explore.RunCtx, mode string) {
 		deep   []string // patterns allowed at positions 3.. (nil = all)
 	}
 	core := []string{"/a/{x}", "/a/{x}/{y}", "/a/{x}/{y}/c", "/a/{x}-{y}", "/a/{x}/{y:\\d+}", "/a/{x:\\d+}", "/a/{x:\\d+}.h", "/a/b", "/{x}/b", "/a/{x}/", "/a/{z}/bd", "/a/{x:\\d+}/bc", "/a/{x:\\d+}/bd", "/a/{x}/bc", "/{xy}/c", "/{x}"}
+	kinds4 := []string{"/a/{x:any}", "/a/{x:digit}", "/a/{x:digit}/b", "/a/{x:\\d+}/bc", "/a/{x:\\d+}/bd", "/a/{x:\\d+}", "/a/{x}/bc", "/a/{x}", "/a/{x}/bd", "/a/b"}
 	mini := []string{"/a/{x}", "/a/{x}/{y}", "/a/{x}/{y}/c", "/a/{x:\\d+}", "/a/b", "/{x}/b", "/a/{x}/bc", "/a/{z}/bd"}
 	var plans []plan
 	if rc.Quick() {
@@ -478,9 +479,12 @@ func runTables(rc *explore.RunCtx, mode string) {
 		}
 		// triples from the most interacting patterns
 		plans = append(plans, plan{RouterCfg{}, core[:13], 3, 4, nil})
+		// ... and triples mixing all four kinds at one position (nodes with and without children, end-of-pattern
+		// parameters): the same-position priority must hold whatever the shapes of the competing nodes
+		plans = append(plans, plan{RouterCfg{IC: "I1"}, kinds4, 3, 4, nil})
 	} else {
 		for _, ic := range []string{"", "I1", "I2"} {
-			plans = append(plans, plan{RouterCfg{IC: ic}, poolD(ic, "thorough"), 3, 5, core})
+			plans = append(plans, plan{RouterCfg{IC: ic}, poolD(ic, "thorough"), 3, 5, append(append([]string{}, core...), kinds4[:3]...)})
 		}
 		plans = append(plans, plan{RouterCfg{}, mini, 4, 4, nil})
 	}
